@@ -737,6 +737,10 @@ func (l *segment) advance() error {
 func (l *segment) close() error {
 	l.mu.Lock()
 	defer l.mu.Unlock()
+	// Write out appends that were acknowledged but are still buffered
+	if err := l.flush(); err != nil {
+		return err
+	}
 	if err := l.file.Close(); err != nil {
 		return err
 	}
